@@ -409,6 +409,68 @@ def check_case(rec, spec, hostile, fmt, cycles, extra, pre, post, loader,
     return None
 
 
+# -- sequences of saves with different file types ------------------------------
+
+SAVE_TYPES = [('yml',), ('json',), ('pkl',), ('pkl', 'yml'), ('pkl', 'json'),
+              ('yml',), ('pkl', 'yml')]
+
+
+def check_save_sequence(rec, spec, steps):
+    """steps: ('save', k) | ('set', idx, value); after every save each file
+    it was asked to write must load to the model as it is now"""
+    from pycel.excelcompiler import ExcelCompiler
+    case = dict(kind='save-sequence', spec=spec,
+                steps=[list(s) for s in steps])
+    failure = []
+    saves = writes_between = 0
+    interesting = False
+    with TempDir() as tmp:
+        try:
+            model = compile_spec(wbspec.build_spec(spec),
+                                 filename=os.path.join(tmp, 'book'))
+            for a in wbspec.all_cells(spec):
+                models.safe_eval(model, a)
+            stem = os.path.join(tmp, 'saved-model')
+            history = []
+            for step in steps:
+                if step[0] == 'set':
+                    apply_step(model, spec, step)
+                    writes_between += 1
+                    continue
+                types = SAVE_TYPES[step[1] % len(SAVE_TYPES)]
+                history.append(types)
+                if saves and writes_between:
+                    interesting = True
+                saves += 1
+                model.to_file(stem, file_types=types)
+                for ext in types:
+                    loaded = ExcelCompiler.from_file(f'{stem}.{ext}')
+                    for a in spec['formulas']:
+                        v1 = models.safe_eval(model, a)
+                        v2 = models.safe_eval(loaded, a)
+                        if not models.same_value(v1, v2):
+                            failure.append((
+                                f'save-sequence:stale-{ext}',
+                                f'after saves {history} the {ext} file gives '
+                                f'{a} = {v2!r}, the model has {v1!r}'))
+                            break
+                    if failure:
+                        break
+                if failure:
+                    break
+        except Exception as exc:
+            failure.append((f'save-sequence:raises:{exc_key(exc)}',
+                            repr(exc)[:300]))
+    rec.case(key=('save-seq', repr(spec['sheets']), repr(steps)),
+             nontrivial=interesting, labels=('save-sequence',),
+             sample=dict(steps=[list(s) for s in steps],
+                         sheets=spec['sheets']))
+    if failure:
+        rec.fail(failure[0][0], case, failure[0][1])
+        return failure[0]
+    return None
+
+
 # -- dedicated cases for the known open findings ------------------------------
 
 def check_open_findings(rec):
@@ -527,6 +589,10 @@ def shards(tier, seed):
     for k in range(14):
         out.append(dict(kind='hyp', seed=seed * 1000 + k,
                         n=100 if tier == 'quick' else 1500))
+    for k in range(4):
+        out.append(dict(kind='saves-enum', part=k, parts=4))
+    out.append(dict(kind='saves', seed=seed * 1000 + 700,
+                    n=60 if tier == 'quick' else 1500))
     out.append(dict(kind='fresh', seed=seed * 1000 + 500,
                     n=40 if tier == 'quick' else 400))
     return out
@@ -535,6 +601,38 @@ def shards(tier, seed):
 def run_shard(shard, rec):
     if shard['kind'] == 'open':
         check_open_findings(rec)
+    elif shard['kind'] == 'saves-enum':
+        import itertools
+        spec = dict(sheets={'S': {'A1': 1, 'B1': 2, 'A2': '=A1+B1',
+                                  'B2': '=SUM(A1:B1)*2'}, 'In': {'B3': 1}},
+                    arrays=[], names={}, active='S',
+                    inputs=['S!A1', 'S!B1'], formulas=['S!A2', 'S!B2'],
+                    ranges=[])
+        kinds = [('yml',), ('json',), ('pkl',), ('pkl', 'yml'),
+                 ('pkl', 'json')]
+        triples = list(itertools.product(range(5), repeat=3))
+        for n, (a, b, c) in enumerate(triples):
+            if n % shard['parts'] != shard['part']:
+                continue
+            idx = [SAVE_TYPES.index(kinds[i]) for i in (a, b, c)]
+            for second_write in (True, False):
+                steps = [('save', idx[0]), ('set', 0, 10 + n),
+                         ('save', idx[1])] + \
+                    ([('set', 1, 20 + n)] if second_write else []) + \
+                    [('save', idx[2])]
+                check_save_sequence(rec, spec, steps)
+        rec.exhaustive.append('all triples of save kinds with a write '
+                              'between the saves')
+    elif shard['kind'] == 'saves':
+        steps = st.lists(st.one_of(
+            st.tuples(st.just('save'), st.integers(0, 6)),
+            st.tuples(st.just('save'), st.integers(0, 6)),
+            st.tuples(st.just('set'), st.integers(0, 40),
+                      st.sampled_from(wbspec.SET_VALUES))),
+            min_size=2, max_size=8)
+        hyp.search(rec, st.tuples(wbspec.specs(max_formulas=6), steps),
+                   lambda c: check_save_sequence(rec, c[0], c[1]),
+                   shard['n'], shard['seed'])
     elif shard['kind'] == 'hyp':
         hyp.search(rec, case_strategy(),
                    lambda c: check_case(rec, *c), shard['n'], shard['seed'])
@@ -559,8 +657,15 @@ def replay(case, rec):
     if isinstance(case, dict) and case.get('kind') == 'open':
         check_open_findings(rec)
         return
+    if isinstance(case, dict) and case.get('kind') == 'save-sequence':
+        check_save_sequence(rec, case['spec'],
+                            [tuple(s) for s in case['steps']])
+        return
     if isinstance(case, list):
-        check_case(rec, *case)
+        if len(case) == 2:
+            check_save_sequence(rec, case[0], [tuple(s) for s in case[1]])
+        else:
+            check_case(rec, *case)
         return
     fresh = []
     res = check_case(rec, case['spec'], [], case['fmt'], case['cycles'],
